@@ -16,14 +16,34 @@ write_fasta / alignments, none of them shares code with tskit):
  X1  nexus: TAXA lists n<u> for all samples; one TREE per marginal tree named t<left>^<right> at the
      documented position precision whose string is that tree's as_newick; DATA rows / FASTA records equal
      alignments() (and an independent nearest-mutation reference alignment), wrapped at wrap_width.
+ L1  the low-level writer behind the fast path (Tree._ll_tree.get_newick) with caller-sized buffers around
+     the exact length: "buffer too small" or exactly the string the fast path returned, never a cut one
+     (and the ASan build sees any byte written past the buffer).
+ F1  writers handed an open file object (StringIO / real file holding text already) leave it open, keep
+     what was there and what is written afterwards.
+
+Audit additions (lib/props/AUDIT-C18.md, helpers in lib/props/c18_ext.py): every precision 0..17; root /
+precision / wrap_width as numpy scalars; the documented "None = default" spelled out for root, precision,
+node_labels, include_branch_lengths; newick(precision) positional and newick(node_labels=custom); Tree objects
+reached by at / at_index (also negative) / first / last / iteration / reversed iteration / copy / seek /
+seek_index / prev-next, with sample_lists / tracked_samples; the null tree; root_threshold > 1 on and one
+above the sample counts of the parentless nodes (kind "thr"); tree sequences after file / pickle / tables
+round trips; node tables with ids past 2^15 / 2^16 and node counts on 10^k boundaries (kind "wide");
+time classes "carry" (branch rounds up to the next power of ten) and "extreme" (1e300, denormals);
+>= 256 marginal trees in one nexus file; genomes > 2^16 (FASTA records > 64 KiB); wrap widths that divide
+the record length.
 
 EITHER zones (not asserted):
   * order of children in the Newick string (compared as multisets);
   * precision default when all *node* times are integers but some mutation/migration time is not
     (the as_newick docstring says "only integer node times", discrete_time says all times): 0 or 17;
   * which of ValueError/TypeError is raised when alignments are undefined for more than one reason;
-  * legacy newick() labels for a subtree root that is not reachable from any tree root, and for isolated
+  * legacy newick() LABELS for a subtree root that is not reachable from any tree root, and for isolated
     non-sample nodes (the two code paths define "leaf" differently there; deprecated API, undocumented);
+    topology and branch lengths are still compared there (monitor legacy-newick:labels-open);
+  * which buffer sizes up to len+2 the low-level get_newick refuses (undocumented C API); 2*len+64 must do;
+  * root = Tree.virtual_root (not a node id; the two paths differ), precision > 17 (only the general path
+    takes it), negative / fractional wrap_width: undocumented, not driven;
   * order of the DATA and TREES blocks in a nexus file;
   * an embedded reference sequence longer than the genome (cut to [0, L) or ValueError);
   * FASTA/nexus for a tree sequence without samples when alignments() would raise (the writers never advance
@@ -42,10 +62,11 @@ from lib import gen
 from lib.harness import case_rng
 from lib.model import NODE_IS_SAMPLE, NULL, RowModel, allele_at, forest, sort_edges_key
 from lib.tsk import to_ts
+from lib.props import c18_ext as X
 
 ID = "C18"
 DEEP_GENERAL = 10 ** 9  # no limit: deep trees go through the Python path too (DNEW-newick-general-path-recursion)
-PRECISIONS = [None, None, 0, 1, 1, 3, 6, 10, 14, 17]  # the extension accepts 0..17 only
+PRECISIONS = X.ALL_PRECISIONS  # every value the extension accepts (0..17) and "left out"
 
 
 # ------------------------------------------------------------------------------- case lists
@@ -107,14 +128,17 @@ def _cases(tier, seed):
     k = 0
     while k < nrand:
         r = k % 20
-        if r < 11:
+        if r < 10:
             yield {"gen": "rand", "k": k}
-        elif r < 13:
+        elif r < 12:
             yield {"gen": "d7", "k": k}
-        elif r < 16:
+        elif r < 15:
             yield {"gen": "ts", "k": k}
-        elif r < 19:
+        elif r < 18:
             yield {"gen": "aln", "k": k}
+        elif r < 19:
+            # root_threshold > 1 (the tree's roots are then a subset of the parentless nodes) / wide node tables
+            yield {"gen": "thr", "k": k} if (k // 20) % 4 else {"gen": "wide", "k": k}
         else:
             yield {"gen": "big", "k": k} if (k // 20) % 4 == 0 else {"gen": "msp", "k": k}
         if quick or k % 4 == 0:
@@ -203,6 +227,8 @@ def _h(label, length, kid_hashes, mask):
         label, length = "", None
     elif mask == "labels":
         length = None
+    elif mask == "lengths":
+        label = ""
     x = repr((label, length, sorted(kid_hashes))).encode("utf8", "surrogatepass")
     return hashlib.blake2b(x, digest_size=12).digest()
 
@@ -260,16 +286,30 @@ def default_precisions(m):
     return {0, 17}
 
 
+def cached_forest(m, x):
+    """forest(m, x), kept on the model object (the exports look at every marginal tree several times)."""
+    cache = m.__dict__.setdefault("_c18_forests", {})
+    fr = cache.get(x)
+    if fr is None:
+        fr = cache[x] = forest(m, x)
+    return fr
+
+
 class TreeRef:
     """Reference view of one marginal tree."""
 
-    def __init__(self, m, x):
+    def __init__(self, m, x, root_threshold=1, null=False):
         self.m = m
-        self.fr = forest(m, x)
+        self.fr = cached_forest(m, x)
+        if null:
+            # the null tree (Tree.clear(), a fresh Tree object, one step off either end): no edges at all
+            self.fr = type(self.fr)(m, {})
         self.samples = set(m.samples())
-        # roots (root_threshold 1): the parentless ancestors of the samples; memoised walk for big trees
+        # roots: the parentless ancestors of the samples that have at least root_threshold samples below them
+        # (Tree.roots / root_threshold documentation); memoised walk for big trees
         top = {}
         par = self.fr.parent
+        below = {}
         for s in self.samples:
             path = []
             u = s
@@ -280,7 +320,9 @@ class TreeRef:
             for v in path:
                 top[v] = r
             top[s] = r
-        self.roots = {top[s] for s in self.samples}
+            below[r] = below.get(r, 0) + 1
+        self.roots = {r for r, k in below.items() if k >= root_threshold}
+        self.root_threshold = root_threshold
 
     def default_label(self, u):
         return f"n{u}" if u in self.samples else ""
@@ -297,8 +339,9 @@ def short(s, n=300):
     return s if len(s) <= n else s[:n // 2] + f" ...[{len(s)} chars]... " + s[-n // 2:]
 
 
-def check_string(ctx, what, s, tr, root, label_of, precision, ibl, detail):
-    """N1 for one output string.  Returns True when it is faithful."""
+def check_string(ctx, what, s, tr, root, label_of, precision, ibl, detail, mask=None):
+    """N1 for one output string.  Returns True when it is faithful.  mask="lengths": labels are not compared
+    (topology and branch strings only)."""
     ctx.count("newick-parse")
     if not isinstance(s, str):
         ctx.violation("newick/not-a-string", f"{what} on {describe(tr, root)} returned {type(s).__name__}", detail)
@@ -309,8 +352,8 @@ def check_string(ctx, what, s, tr, root, label_of, precision, ibl, detail):
         ctx.violation("newick/malformed", f"{what} on {describe(tr, root)} returned {short(s)!r}: {e}", detail)
         return False
     blen = tr.blen(precision) if ibl else (lambda u: None)
-    want, size = canon_ref(tr.fr, root, label_of, blen)
-    got = canon_parsed(nodes)
+    want, size = canon_ref(tr.fr, root, label_of, blen, mask)
+    got = canon_parsed(nodes, mask)
     if want == got:
         return True
     # classify the disagreement by mechanism
@@ -401,16 +444,23 @@ def random_labels(rng, m, nodes_below):
     return {u: str(m.time(u)) for u in nodes if rng.random() < 0.8}
 
 
-def check_tree(ctx, rng, tree, tr, m, detail, roots=None, precisions=None, general=True, light=False):
-    """All as_newick/newick monitors for one positioned tskit.Tree against its TreeRef."""
+def check_tree(ctx, rng, tree, tr, m, detail, roots=None, precisions=None, general=True, light=False, legacy=None,
+               probe=None):
+    """All as_newick/newick monitors for one positioned tskit.Tree against its TreeRef.
+    light: fast path + general path with the default labels only; legacy / probe force (True) or forbid (False)
+    the legacy newick() block and the low-level buffer probe, None = by the mode."""
     samples = sorted(tr.samples)
     dflt = default_precisions(m)
     nroots = len(tr.roots)
     # ---- N4: whole tree
     ctx.count("as_newick:whole-tree")
     if nroots != 1:
+        ctx.feature("whole-tree:no-root" if nroots == 0 else "whole-tree:several-roots")
         for name, fn in (("as_newick()", lambda: tree.as_newick()), ("newick()", lambda: tree.newick()),
-                         ("as_newick(node_labels={})", lambda: tree.as_newick(node_labels={}))):
+                         ("as_newick(node_labels={})", lambda: tree.as_newick(node_labels={})),
+                         ("as_newick(root=None, include_branch_lengths=False)",
+                          lambda: tree.as_newick(root=None, include_branch_lengths=False)),
+                         ("newick(3, root=None)", lambda: tree.newick(3, root=None))):
             ctx.count("newick-multiroot-must-raise")
             try:
                 s = fn()
@@ -420,8 +470,8 @@ def check_tree(ctx, rng, tree, tr, m, detail, roots=None, precisions=None, gener
                 ctx.violation("newick/multiroot-wrong-exception", f"{name} on a tree with {nroots} roots raised "
                               f"{type(e).__name__}: {e} (documented: ValueError)", detail)
                 continue
-            ctx.violation("newick/multiroot-accepted", f"{name} on a tree with roots {sorted(tr.roots)} returned "
-                          f"{short(s)!r} instead of raising ValueError", detail)
+            ctx.violation("newick/multiroot-accepted", f"{name} on a tree with roots {sorted(tr.roots)} "
+                          f"(root_threshold={tr.root_threshold}) returned {short(s)!r} instead of raising ValueError", detail)
     if roots is None:
         roots = [None] if nroots == 1 else []
         allnodes = list(range(m.num_nodes))
@@ -435,85 +485,117 @@ def check_tree(ctx, rng, tree, tr, m, detail, roots=None, precisions=None, gener
         if root is None and nroots != 1:
             continue
         r = root if root is not None else next(iter(tr.roots))
-        rootkw = {} if root is None else {"root": root}
         depth = subtree_depth(tr.fr, r)
         do_general = general and depth <= DEEP_GENERAL
         reachable = tr.fr.root_of(r) in tr.roots
+        do_probe = (rng.random() < (0.15 if light else 0.2)) if probe is None else probe
         for p in precisions:
-            pkw = {} if p is None else {"precision": p}
-            args = ", ".join(f"{k}={v}" for k, v in {**rootkw, **pkw}.items())
+            kw = X.newick_kwargs(rng, ctx, root, p, fast=True)
+            args = X.show_kwargs(kw)
             # ---- fast path
             ctx.count("as_newick:fast")
-            s1 = call_newick(ctx, lambda: tree.as_newick(**rootkw, **pkw), f"as_newick({args})", detail)
+            s1 = call_newick(ctx, lambda: tree.as_newick(**kw), f"as_newick({args})", detail)
+            peff = p
             if s1 is not None:
                 peff = p if p is not None else resolve_default(ctx, s1, tr, r, dflt, f"as_newick({args})", detail)
-                check_string(ctx, f"as_newick({args})", s1, tr, r, tr.default_label, peff, True, detail)
+                ok = check_string(ctx, f"as_newick({args})", s1, tr, r, tr.default_label, peff, True, detail)
+                if ok and do_probe:
+                    # ---- the writer behind the fast path with caller-sized buffers (sanitizer + never a cut string)
+                    do_probe = False
+                    X.ll_probe(ctx, rng, tree, r, peff, False, s1, f"as_newick({args})", detail)
             # ---- general path with the default labels: N3
             if do_general:
                 ctx.count("as_newick:general")
                 lab = {u: f"n{u}" for u in samples}
-                s2 = call_newick(ctx, lambda: tree.as_newick(**rootkw, **pkw, node_labels=lab),
-                                 f"as_newick({args}, node_labels=<default labels>)", detail)
+                kw2 = X.newick_kwargs(rng, ctx, root, p, fast=False)
+                args2 = X.show_kwargs(kw2)
+                s2 = call_newick(ctx, lambda: tree.as_newick(**kw2, node_labels=lab),
+                                 f"as_newick({args2}, node_labels=<default labels>)", detail)
                 if s2 is not None and s1 is not None:
                     ctx.count("newick-fast-vs-general")
                     if s1 != s2:
                         ctx.violation("newick/fast-vs-general", f"as_newick({args}) fast path {short(s1)!r} != "
                                       f"general path (node_labels = default labels) {short(s2)!r}", detail)
                 if s2 is not None and s2 != s1:
-                    peff = p if p is not None else resolve_default(ctx, s2, tr, r, dflt, f"as_newick({args}, node_labels)", detail)
-                    check_string(ctx, f"as_newick({args}, node_labels=<default>)", s2, tr, r, tr.default_label,
+                    peff = p if p is not None else resolve_default(ctx, s2, tr, r, dflt, f"as_newick({args2}, node_labels)", detail)
+                    check_string(ctx, f"as_newick({args2}, node_labels=<default>)", s2, tr, r, tr.default_label,
                                  peff, True, detail)
-        if light:
-            continue
-        p = rng.choice(precisions)
-        pkw = {} if p is None else {"precision": p}
-        peff = p if p is not None else (min(dflt) if len(dflt) == 1 else None)
-        if do_general:
+        do_legacy = (not light) if legacy is None else legacy
+        if not light:
+            p = rng.choice(precisions)
+            peff = p if p is not None else (min(dflt) if len(dflt) == 1 else None)
+        if do_general and not light:
+            rootkw = X.newick_kwargs(rng, ctx, root, None, fast=False)
+            rootkw.pop("precision", None)
+            pkw = {} if p is None else {"precision": X.int_form(rng, ctx, p, "precision")}
             # ---- custom / partial / empty labels
             lab = random_labels(rng, m, None)
             ctx.count("as_newick:custom-labels")
-            what = f"as_newick({rootkw}, {pkw}, node_labels={short(repr(lab), 200)})"
+            what = f"as_newick({X.show_kwargs(rootkw)}, {X.show_kwargs(pkw)}, node_labels={short(repr(lab), 200)})"
             s3 = call_newick(ctx, lambda: tree.as_newick(**rootkw, **pkw, node_labels=dict(lab)), what, detail)
             if s3 is not None and peff is not None:
                 check_string(ctx, what, s3, tr, r, lambda u: lab.get(u, ""), peff, True, detail)
+            # the deprecated spelling takes the same labels ("other parameters behave as documented in as_newick");
+            # its precision is the first positional parameter and defaults to 14
+            if rng.random() < 0.5:
+                ctx.count("legacy-newick:custom-labels")
+                lpos = rng.random() < 0.5 and p is not None
+                what = f"newick({p if lpos else X.show_kwargs(pkw)}, {X.show_kwargs(rootkw)}, node_labels={short(repr(lab), 200)})"
+                if lpos:
+                    s3b = call_newick(ctx, lambda: tree.newick(p, **rootkw, node_labels=dict(lab)), what, detail)
+                else:
+                    s3b = call_newick(ctx, lambda: tree.newick(**rootkw, **pkw, node_labels=dict(lab)), what, detail)
+                if s3b is not None:
+                    check_string(ctx, what, s3b, tr, r, lambda u: lab.get(u, ""), 14 if p is None else p, True, detail)
             # ---- branch lengths omitted, default and custom labels
             ctx.count("as_newick:no-branch-lengths")
             for lb, label_of in ((None, tr.default_label), (lab, lambda u: lab.get(u, ""))):
                 kw = dict(rootkw)
                 if lb is not None:
                     kw["node_labels"] = dict(lb)
+                elif rng.random() < 0.2:
+                    kw["node_labels"] = None
                 if rng.random() < 0.5:
                     kw.update(pkw)
                 what = f"as_newick({short(repr(kw), 200)}, include_branch_lengths=False)"
                 s4 = call_newick(ctx, lambda: tree.as_newick(include_branch_lengths=False, **kw), what, detail)
                 if s4 is not None:
                     check_string(ctx, what, s4, tr, r, label_of, 0, False, detail)
-            # include_branch_lengths=True stated explicitly == default
-            s5 = call_newick(ctx, lambda: tree.as_newick(include_branch_lengths=True, **rootkw, **pkw),
-                             "as_newick(include_branch_lengths=True)", detail)
-            s6 = call_newick(ctx, lambda: tree.as_newick(**rootkw, **pkw), "as_newick", detail)
-            if s5 is not None and s6 is not None and s5 != s6:
-                ctx.violation("newick/include_branch_lengths-true-differs", f"{short(s5)!r} != {short(s6)!r}", detail)
         # ---- legacy newick(): leaves labelled id+1, precision 14 by default
-        if reachable and (tr.fr.kids(r) or r in tr.samples):
-            ctx.count("legacy-newick")
-            lp = rng.choice([None, 0, 3, 14])
-            lkw = {} if lp is None else {"precision": lp}
-            what = f"newick({rootkw}, {lkw})"
-            s7 = call_newick(ctx, lambda: tree.newick(**rootkw, **lkw), what, detail)
+        if do_legacy:
+            lp = rng.choice([None, None, 0, 3, 14, rng.randint(0, 17)])
+            lpos = lp is not None and rng.random() < 0.5  # newick(precision) is the one positional parameter here
+            rootkw = {} if root is None else {"root": X.int_form(rng, ctx, root, "root")}
+            lkw = {} if lp is None or lpos else {"precision": lp}
+            largs = (lp,) if lpos else ()
+            if lpos:
+                ctx.feature("arg:newick-positional-precision")
+            what = f"newick({', '.join([repr(a) for a in largs] + [X.show_kwargs({**rootkw, **lkw})])})"
+            strict = reachable and bool(tr.fr.kids(r) or r in tr.samples)
+            # EITHER (deprecated API): for a subtree that no tree root reaches, and for an isolated non-sample node,
+            # the two code paths disagree on which childless nodes are "leaves"; there the labels are not compared,
+            # the topology and the branch lengths still are
+            mask = None if strict else "lengths"
+            ctx.count("legacy-newick" if strict else "legacy-newick:labels-open")
+            s7 = call_newick(ctx, lambda: tree.newick(*largs, **rootkw, **lkw), what, detail)
             if s7 is not None:
-                check_string(ctx, what, s7, tr, r, tr.legacy_label, 14 if lp is None else lp, True, detail)
+                ok = check_string(ctx, what, s7, tr, r, tr.legacy_label, 14 if lp is None else lp, True, detail, mask=mask)
+                if ok and strict and (rng.random() < 0.1 if probe is None else probe):
+                    X.ll_probe(ctx, rng, tree, r, 14 if lp is None else lp, True, s7, what, detail)
             if do_general:
                 s8 = call_newick(ctx, lambda: tree.newick(include_branch_lengths=False, **rootkw), what + " no lengths", detail)
                 if s8 is not None:
-                    check_string(ctx, what + " include_branch_lengths=False", s8, tr, r, tr.legacy_label, 0, False, detail)
-                leaf_lab = {u: str(u + 1) for u in range(m.num_nodes) if not tr.fr.kids(u)}
-                s9 = call_newick(ctx, lambda: tree.newick(node_labels=leaf_lab, **rootkw, **lkw), what + " explicit", detail)
-                if s7 is not None and s9 is not None:
-                    ctx.count("newick-fast-vs-general")
-                    if s7 != s9:
-                        ctx.violation("newick/fast-vs-general", f"legacy {what}: fast path {short(s7)!r} != general path "
-                                      f"with the same labels {short(s9)!r}", detail)
+                    check_string(ctx, what + " include_branch_lengths=False", s8, tr, r, tr.legacy_label, 0, False, detail,
+                                 mask=mask)
+                if strict:
+                    leaf_lab = {u: str(u + 1) for u in range(m.num_nodes) if not tr.fr.kids(u)} if m.num_nodes < 5000 else \
+                        {u: str(u + 1) for u in tr.fr.descendants(r) if not tr.fr.kids(u)}
+                    s9 = call_newick(ctx, lambda: tree.newick(*largs, node_labels=leaf_lab, **rootkw, **lkw), what + " explicit", detail)
+                    if s7 is not None and s9 is not None:
+                        ctx.count("newick-fast-vs-general")
+                        if s7 != s9:
+                            ctx.violation("newick/fast-vs-general", f"legacy {what}: fast path {short(s7)!r} != general path "
+                                          f"with the same labels {short(s9)!r}", detail)
 
 
 def resolve_default(ctx, s, tr, root, dflt, what, detail):
@@ -547,7 +629,7 @@ def _quiet_match(s, tr, root, label_of, precision):
 
 
 TIME_CLASSES = ["int", "int", "half", "half", "unit", "unit", "neg", "negbig", "pow10", "huge", "hugefrac", "tiny",
-                "float", "intgap"]
+                "float", "intgap", "carry", "extreme"]
 
 
 def assign_times(rng, ranks, cls):
@@ -584,6 +666,20 @@ def assign_times(rng, ranks, cls):
             f = lambda r: sel[r]  # noqa: E731
         else:
             f = lambda r: float(r * 10)  # noqa: E731
+    elif cls == "carry":
+        # branches just below a power of ten that round UP to it at low precision (9.5 -> "10", 999.75 -> "1000"):
+        # one more integer digit than floor(log10(branch)) + 1
+        low = rng.choice([0.5, 0.5, 0.25, 2.0 ** -10, 2.0 ** -20])
+        if R <= 15:
+            start = rng.randint(0, 16 - max(R, 1))
+            f = lambda r: low if r == 0 else 10.0 ** (start + r - 1)  # noqa: E731
+        else:
+            f = lambda r: low if r == 0 else 10.0 * r  # noqa: E731
+    elif cls == "extreme":
+        # hundreds of integer digits / denormals (%f prints them all); exact multiples, so still strictly increasing
+        s = rng.choice([1e300, 2.0 ** 1000, 1e200, 5e-324, 5e-324, 2.0 ** -1060])
+        off = rng.choice([0, 0, R, R // 2])
+        f = lambda r: (r - off) * s  # noqa: E731
     elif cls == "huge":
         s = rng.choice([1e15, 2.0 ** 50, 1e12])
         f = lambda r: r * s  # noqa: E731
@@ -792,17 +888,89 @@ def run_rand(case, ctx):
     finish_single(case, ctx, rng, m)
 
 
-def finish_single(case, ctx, rng, m, **kw):
-    tr = TreeRef(m, 0.0)
+def finish_single(case, ctx, rng, m, root_threshold=1, forms=True, **kw):
+    tr = TreeRef(m, 0.0, root_threshold=root_threshold)
     feature_tags(ctx, m, tr)
     ctx.sig(m.signature(), nontrivial=len(m.edges) > 0)
     if case["k"] < 40 and m.num_nodes <= 8:
         ctx.sample({"case": case, "model": m.to_json()})
     ts = to_ts(m)
-    tree = ts.first()
+    if forms:
+        # the same tree sequence / tree reached another way (file, pickle, tables; at / seek / iteration / copy ...)
+        ts = X.ts_form(rng, ctx, ts, share=0.15)
+        tree, form = X.tree_form(rng, ctx, ts, 0, 0.0, root_threshold=root_threshold)
+    else:
+        tree, form = ts.first(root_threshold=root_threshold), "first"
     detail = {"model": m.to_json()} if m.num_nodes <= 80 else {"model": "large", "num_nodes": m.num_nodes,
                                                                 "tags": sorted(m.tags)}
+    detail["tree"] = form
     check_tree(ctx, rng, tree, tr, m, detail, **kw)
+    if forms and rng.random() < 0.1:
+        check_null_tree(ctx, rng, tree, m, detail, root_threshold)
+
+
+def check_null_tree(ctx, rng, tree, m, detail, root_threshold=1):
+    """The same Tree object put back into the null state (documented: no edges, every sample a root):
+    every node is then its own one-node subtree."""
+    how = rng.choice(["clear", "off-the-end", "off-the-start"])
+    if how == "clear":
+        tree.clear()
+    elif how == "off-the-end":
+        tree.last()
+        tree.next()
+    else:
+        tree.first()
+        tree.prev()
+    ctx.feature("tree-form:null:" + how)
+    trn = TreeRef(m, 0.0, root_threshold=root_threshold, null=True)
+    d = dict(detail)
+    d["tree"] = "null tree after " + how
+    n = m.num_nodes
+    roots = ([None] if len(trn.roots) == 1 else []) + rng.sample(range(n), min(n, 3))
+    check_tree(ctx, rng, tree, trn, m, d, roots=roots, precisions=[rng.choice(PRECISIONS)], light=True, legacy=False)
+
+
+def run_thr(case, ctx):
+    """root_threshold > 1: Tree.roots keeps only parentless nodes with at least that many samples below, so
+    "has a single root" (and which node as_newick() starts from) changes; thresholds sit exactly on / one above
+    the sample counts of the parentless nodes."""
+    rng = case_rng(case)
+    n = rng.choice([2, 3, 4, 5, 6, 8, 10, 12, 20, 30])
+    shape = rng.choice(["forest", "forest", "forest", "ties", "binary", "recursive", "star"])
+    parent, ranks = gen_shape(rng, n, shape)
+    m = model_from_parents(rng, parent, ranks, rng.choice(TIME_CLASSES), rng.choice(["leaves", "all", "mixed", "random"]))
+    m.tags.add("shape:" + shape)
+    tr1 = TreeRef(m, 0.0)
+    counts = sorted({len(tr1.fr.samples_below(r)) for r in tr1.roots} | {len(tr1.samples)})
+    cands = [c for c in counts if c >= 2] + [c + 1 for c in counts] + [2]
+    k = rng.choice(cands)
+    m.tags.add("root_threshold>1")
+    trk = TreeRef(m, 0.0, root_threshold=k)
+    if len(tr1.roots) != 1 and len(trk.roots) == 1:
+        ctx.feature("root_threshold:makes-single-root")
+    if len(tr1.roots) >= 1 and len(trk.roots) == 0:
+        ctx.feature("root_threshold:removes-every-root")
+    if k in counts:
+        ctx.feature("root_threshold:exactly-a-root's-sample-count")
+    finish_single(case, ctx, rng, m, root_threshold=k)
+
+
+def run_wide(case, ctx):
+    """Node tables with ids past 2^15 / 2^16 and node counts on the digit boundaries of the fast path's label-size
+    estimate; the genealogy sits on the boundary ids, every other node is isolated."""
+    rng = case_rng(case)
+    m, ts, ids, extra = X.build_wide(rng, gen_shape, assign_times, TIME_CLASSES)
+    tr = TreeRef(m, 0.0)
+    for t in m.tags:
+        ctx.feature(t)
+    ctx.sig(("wide", m.num_nodes, tuple(ids), tuple(m.edges), tuple(m.nodes[u] for u in ids)), nontrivial=True)
+    tree = rng.choice([ts.first, ts.last, lambda: ts.at(0.5), lambda: ts.first().copy()])()
+    detail = {"model": "wide", "num_nodes": m.num_nodes, "tree_nodes": {u: m.nodes[u][:2] for u in ids},
+              "edges": [e[:4] for e in m.edges], "extra_isolated_samples": extra, "tags": sorted(m.tags)}
+    tops = sorted(tr.roots)
+    roots = ([None] if len(tops) == 1 else []) + [u for u in tops if tr.fr.kids(u)][:1] + rng.sample(ids, min(3, len(ids)))
+    roots.append(rng.randrange(m.num_nodes))  # usually an isolated non-sample node: ";"
+    check_tree(ctx, rng, tree, tr, m, detail, roots=roots, precisions=rng.sample(PRECISIONS, 2), light=True, legacy=True)
 
 
 def run_d7(case, ctx):
@@ -812,7 +980,7 @@ def run_d7(case, ctx):
     n = rng.choice([3, 5, 8, 9, 10, 11, 12, 20, 40, 99, 100, 101, 120])
     shape = rng.choice(["chain", "chain", "caterpillar", "recursive", "star", "binary"])
     parent, ranks = gen_shape(rng, n, shape)
-    cls = rng.choice(["unit", "unit", "negbig", "neg", "pow10", "half", "int", "tiny", "huge"])
+    cls = rng.choice(["unit", "unit", "negbig", "neg", "pow10", "half", "int", "tiny", "huge", "carry", "carry", "extreme"])
     sm = rng.choice(["all", "all", "mixed", "leaves", "internal"])
     m = model_from_parents(rng, parent, ranks, cls, sm, shuffle_ids=rng.random() < 0.5)
     m.tags.add("shape:" + shape)
@@ -820,7 +988,9 @@ def run_d7(case, ctx):
     tr = TreeRef(m, 0.0)
     roots = [None] if len(tr.roots) == 1 else sorted(tr.roots)[:1]
     roots += rng.sample(range(m.num_nodes), min(2, m.num_nodes))
-    finish_single(case, ctx, rng, m, roots=roots, precisions=[None, 0, 1, 2, 6, 17], light=True)
+    # every precision over two cases' worth of calls: the ends, the default and a random half of the rest
+    finish_single(case, ctx, rng, m, roots=roots, precisions=[None, 0, 1, 17] + rng.sample(range(2, 17), 4), light=True,
+                  probe=True if n >= 40 else None)
 
 
 def run_big(case, ctx):
@@ -835,7 +1005,9 @@ def run_big(case, ctx):
     m.tags.add("large-tree")
     tr = TreeRef(m, 0.0)
     roots = ([None] if len(tr.roots) == 1 else []) + [rng.randrange(n)]
-    finish_single(case, ctx, rng, m, roots=roots, precisions=[rng.choice(PRECISIONS)], light=True)
+    # probe: strings of > 512 bytes come from malloc (pymalloc serves smaller ones), so the sanitizer sees a
+    # one-byte overrun of a caller-sized buffer here
+    finish_single(case, ctx, rng, m, forms=False, roots=roots, precisions=[rng.choice(PRECISIONS)], light=True, probe=True)
 
 
 def run_msp(case, ctx):
@@ -856,7 +1028,7 @@ def run_msp(case, ctx):
     m.metadata_schema = ""
     m.metadata = b""
     m.tags.add("msprime")
-    ts = to_ts(m)
+    ts = X.ts_form(rng, ctx, to_ts(m), share=0.3)
     ctx.sig(m.signature(), nontrivial=True)
     bps = m.breakpoints()
     idx = rng.sample(range(len(bps) - 1), min(3, len(bps) - 1))
@@ -866,7 +1038,8 @@ def run_msp(case, ctx):
         tr = TreeRef(m, x)
         if i == idx[0]:
             feature_tags(ctx, m, tr)
-        check_tree(ctx, rng, ts.at(x), tr, m, detail, roots=[None, rng.randrange(m.num_nodes)],
+        tree, form = X.tree_form(rng, ctx, ts, i, x)
+        check_tree(ctx, rng, tree, tr, m, dict(detail, tree=form), roots=[None, rng.randrange(m.num_nodes)],
                    precisions=[rng.choice(PRECISIONS)], light=True)
     check_exports(ctx, rng, ts, m, detail)
 
@@ -878,16 +1051,26 @@ def run_ts(case, ctx):
     for t in gen.topo_tags(m):
         ctx.feature(t)
     ctx.sig(m.signature(), nontrivial=len(m.edges) > 0)
-    ts = to_ts(m)
+    ts = X.ts_form(rng, ctx, to_ts(m), share=0.3)
     bps = m.breakpoints()
     detail = {"model": m.to_json()}
     if ts.num_trees != len(bps) - 1:
         ctx.violation("num_trees", f"num_trees={ts.num_trees}, edge rows imply {len(bps) - 1}", detail)
         return
-    for i, tree in enumerate(ts.trees()):
+    # one Tree object stepped through the sequence (what write_nexus does), or each tree reached on its own way
+    thr = 2 if rng.random() < 0.12 else 1
+    stepped = rng.random() < 0.5
+    it = ts.trees(root_threshold=thr) if stepped else None
+    ctx.feature("trees:one-object-stepped" if stepped else "trees:each-reached-separately")
+    for i in range(len(bps) - 1):
         x = (bps[i] + bps[i + 1]) / 2
-        tr = TreeRef(m, x)
-        check_tree(ctx, rng, tree, tr, m, detail, precisions=[rng.choice(PRECISIONS)], light=i > 0 and rng.random() < 0.5)
+        if stepped:
+            tree, form = next(it), f"trees(root_threshold={thr}) step {i}"
+        else:
+            tree, form = X.tree_form(rng, ctx, ts, i, x, root_threshold=thr)
+        tr = TreeRef(m, x, root_threshold=thr)
+        check_tree(ctx, rng, tree, tr, m, dict(detail, tree=form), precisions=[rng.choice(PRECISIONS)],
+                   light=i > 0 and rng.random() < 0.5)
     check_exports(ctx, rng, ts, m, detail)
 
 
@@ -898,10 +1081,27 @@ def gen_aln_model(rng):
     """Discrete-genome tree sequences where (usually) every sample is connected everywhere: k samples,
     one random tree per interval built on its own internal nodes (plus shared ones)."""
     k = rng.choice([1, 2, 3, 4, 5, 8])
-    L = rng.choice([1, 2, 3, 7, 8, 10, 13, 60, 61, 100])
+    L = rng.choice([1, 2, 3, 7, 8, 10, 13, 59, 60, 61, 100, 120])
     nb = rng.randint(0, min(4, L - 1))
+    mode = rng.random()
+    tags = set()
+    if mode < 0.02:
+        # >= 256 marginal trees: one TREE line each in the nexus file
+        L = rng.choice([300, 512, 600])
+        nb = rng.randint(256, 299)
+        k = rng.choice([2, 3, 4])
+        tags.add("trees>=256")
+    elif mode < 0.045:
+        # genome longer than 2^16: alignments / FASTA records of > 64 KiB, > 1000 wrapped lines per record
+        L = rng.choice([65536, 65537, 70001, 100000])
+        k = rng.choice([1, 2, 3])
+        tags.add("genome>2^16")
+    # the two extreme modes keep every documented precondition (single roots, no isolated samples, one-letter alleles,
+    # integer coordinates) in most cases, so that the writers are compared line by line rather than expected to refuse
+    clean = bool(tags) and rng.random() < 0.85
     bps = [0] + sorted(rng.sample(range(1, L), nb)) + [L]
     m = RowModel(float(L))
+    m.tags.update(tags)
     time_cls = rng.choice(["int", "int", "half", "float"])
     internal_sample = rng.random() < 0.2
     nodes = [(NODE_IS_SAMPLE, 0.0, NULL, NULL, b"") for _ in range(k)]
@@ -909,7 +1109,7 @@ def gen_aln_model(rng):
     for i in range(len(bps) - 1):
         lin = list(range(k))
         t = 0.0
-        if k == 1 and rng.random() < 0.7:
+        if k == 1 and (rng.random() < 0.7 or clean):
             # a single sample needs a parent to be non-isolated
             t = 1.0
             nodes.append((0, t, NULL, NULL, b""))
@@ -924,15 +1124,15 @@ def gen_aln_model(rng):
             for c in pick:
                 edges.append((float(bps[i]), float(bps[i + 1]), u, c, b""))
             lin.append(u)
-            if rng.random() < 0.08:
+            if rng.random() < 0.08 and not clean:
                 break  # leaves several roots in this interval
     r = rng.random()
-    if r < 0.08:
+    if r < 0.08 and not clean:
         nodes.append((NODE_IS_SAMPLE, 0.0, NULL, NULL, b""))  # an isolated sample everywhere
         m.tags.add("isolated-sample-added")
     m.nodes = nodes
     m.edges = sorted(edges, key=sort_edges_key(m))
-    r = rng.random()
+    r = rng.random() if not clean else 1.0
     alleles = "ACGT"
     if r < 0.1:
         alleles = ["A", "C", "G", "T", "", "AC", "é"]
@@ -941,14 +1141,14 @@ def gen_aln_model(rng):
         alleles = "ACGTN?-"
     gen.decorate_sites(rng, m, max_sites=min(L, 6), alleles=list(alleles), discrete=True,
                        known_times=False if time_cls == "int" else None)
-    if rng.random() < 0.07:
+    if rng.random() < 0.07 and not clean:
         # a non-integer site position makes the genome non-discrete
         if m.sites and not any(s[0] + 0.5 == s2[0] for s in m.sites for s2 in m.sites):
             j = rng.randrange(len(m.sites))
             if m.sites[j][0] + 0.5 < m.L:
                 m.sites[j] = (m.sites[j][0] + 0.5,) + m.sites[j][1:]
                 m.tags.add("non-discrete-genome")
-    if rng.random() < 0.12:
+    if rng.random() < 0.12 and not clean:
         # halve every coordinate: usually a non-discrete genome (positions printed with 17 decimals in nexus)
         m.L /= 2
         m.edges = [(l / 2, r_ / 2, p, c, md) for l, r_, p, c, md in m.edges]
@@ -1000,7 +1200,7 @@ def reference_alignments(m, ref_arg, missing):
     samples = m.samples()
     bps = m.breakpoints()
     for i in range(len(bps) - 1):
-        fr = forest(m, (bps[i] + bps[i + 1]) / 2)
+        fr = cached_forest(m, (bps[i] + bps[i + 1]) / 2)
         if any(fr.is_isolated(s) for s in samples):
             causes.add(ValueError)
             break
@@ -1081,14 +1281,22 @@ def check_exports(ctx, rng, ts, m, detail):
                 ctx.violation("alignments/wrong-exception", f"alignments({kw}) raised {type(err).__name__}: {err}; documented "
                               f"{[c.__name__ for c in exp]}", detail)
         # FASTA must mirror alignments() (same arguments) at every wrap width
-        widths = [0, 1, 7, 60, Li, Li + 1, max(1, Li - 1), None]
-        for w in rng.sample(widths, 3):
+        # widths: no wrapping, 1, the default, on / next to the record length, exact divisors of it (the last
+        # line is then full: no empty line may follow), twice the length
+        divs = [d for d in (2, 3, 4, 5, 6, 10, 12, 20, 30) if Li > d and Li % d == 0]
+        widths = [0, 1, 7, 60, Li, Li + 1, max(1, Li - 1), None, 2 * Li + 1, max(1, Li // 2)]
+        pick = rng.sample(widths, 3 if Li < 60000 else 2)
+        if divs:
+            pick[0] = rng.choice(divs)
+            ctx.feature("fasta:width-divides-length")
+        for w in pick:
             fkw = dict(kw)
             if w is not None:
-                fkw["wrap_width"] = w
+                fkw["wrap_width"] = X.int_form(rng, ctx, w, "wrap_width")
             weff = 60 if w is None else w
             ctx.count("fasta")
-            how = rng.choice(["as_fasta", "as_fasta", "write_fasta:file", "write_fasta:path", "write_fasta:pathlib"])
+            how = rng.choice(WRITER_FORMS["fasta"])
+            ctx.feature("writer:" + how)
             try:
                 text = call_writer(ts, "fasta", how, fkw)
                 ferr = None
@@ -1114,6 +1322,8 @@ def check_exports(ctx, rng, ts, m, detail):
                 ctx.violation("fasta/raises-where-alignments-succeed", f"{how}({fkw}) raised {type(ferr).__name__}: {ferr}", detail)
                 continue
             want = []
+            if Li > 65535 and samples:
+                ctx.feature("fasta:record>64KiB-compared")
             for u, a in zip(samples, got_al):
                 want.append(f">n{u}")
                 want.extend(wrap_ref(a, weff))
@@ -1129,9 +1339,9 @@ def check_exports(ctx, rng, ts, m, detail):
     # ---------------- nexus
     for rep in range(2):
         kw = {}
-        p = rng.choice([None, None, 0, 1, 6, 17])
+        p = rng.choice(PRECISIONS)
         if p is not None:
-            kw["precision"] = p
+            kw["precision"] = X.int_form(rng, ctx, p, "precision")
         it = rng.choice([None, None, True, False])
         ia = rng.choice([None, None, True, False])
         if it is not None:
@@ -1148,6 +1358,10 @@ def check_exports(ctx, rng, ts, m, detail):
         check_nexus(ctx, rng, ts, m, kw, detail)
 
 
+WRITER_FORMS = {f: [f"as_{f}", f"as_{f}", f"write_{f}:file", f"write_{f}:path", f"write_{f}:pathlib", f"write_{f}:kw",
+                    f"write_{f}:stream", f"write_{f}:realfile"] for f in ("fasta", "nexus")}
+
+
 def call_writer(ts, fmt, how, kw):
     if how.startswith("as_"):
         return getattr(ts, "as_" + fmt)(**kw)
@@ -1156,8 +1370,15 @@ def call_writer(ts, fmt, how, kw):
         buf = io.StringIO()
         fn(buf, **kw)
         return buf.getvalue()
-    d = tempfile.mkdtemp(prefix="c18-")
-    path = os.path.join(d, "out.txt")
+    if how.endswith(":kw"):
+        buf = io.StringIO()
+        fn(file_or_path=buf, **kw)
+        return buf.getvalue()
+    if how.endswith(":stream") or how.endswith(":realfile"):
+        # a file object that already holds text and is written to afterwards: must stay open, nothing may be lost
+        return X.write_to_stream(fn, kw, how)
+    fd, path = tempfile.mkstemp(prefix="c18-", suffix=".txt")  # one file, no directory: a single unlink cleans up
+    os.close(fd)
     try:
         fn(__import__("pathlib").Path(path) if how.endswith("pathlib") else path, **kw)
         with open(path) as f:
@@ -1167,7 +1388,6 @@ def call_writer(ts, fmt, how, kw):
             os.unlink(path)
         except OSError:
             pass
-        os.rmdir(d)
 
 
 TREE_RE = re.compile(r"^TREE (\S+) = \[&R\] (.*)$")
@@ -1187,7 +1407,8 @@ def check_nexus(ctx, rng, ts, m, kw, detail):
     missing = kw.get("missing_data_character") or "?"
     precision = kw.get("precision")
     trefs = [TreeRef(m, (bps[i] + bps[i + 1]) / 2) for i in range(len(bps) - 1)]
-    how = rng.choice(["as_nexus", "as_nexus", "write_nexus:file", "write_nexus:path", "write_nexus:pathlib"])
+    how = rng.choice(WRITER_FORMS["nexus"])
+    ctx.feature("writer:" + how)
     what = f"{how}({kw})"
     # expected failures
     must_fail = set()
@@ -1233,6 +1454,10 @@ def check_nexus(ctx, rng, ts, m, kw, detail):
     ctx.count("nexus-parsed")
     if it and len(trefs) > 1:
         ctx.feature("nexus:multi-tree")
+    if it and len(trefs) >= 256:
+        ctx.feature("nexus:>=256-trees-compared")
+    if ia and L > 65535 and samples:
+        ctx.feature("nexus:data-rows>64KiB-compared")
     if it and not discrete:
         ctx.feature("nexus:non-discrete-positions")
     if ia:
@@ -1323,13 +1548,15 @@ def run_aln(case, ctx):
     for t in m.tags:
         ctx.feature(t)
     ctx.sig(m.signature(), nontrivial=len(m.edges) > 0 and len(m.sites) > 0)
-    ts = to_ts(m)
-    detail = {"model": m.to_json(), "refseq": m.refseq}
+    ts = X.ts_form(rng, ctx, to_ts(m), share=0.3)
+    detail = {"model": m.to_json(), "refseq": m.refseq} if m.L < 1000 else \
+        {"model": "long genome", "L": m.L, "nodes": m.nodes, "edges": m.edges, "sites": m.sites, "mutations": m.mutations,
+         "refseq": None if m.refseq is None else {k: short(str(v), 60) for k, v in m.refseq.items()}}
     check_exports(ctx, rng, ts, m, detail)
 
 
 RUNNERS = {"enum": run_enum, "rand": run_rand, "d7": run_d7, "big": run_big, "msp": run_msp, "ts": run_ts,
-           "aln": run_aln}
+           "aln": run_aln, "thr": run_thr, "wide": run_wide}
 
 
 def run_case(case, ctx):
